@@ -6,6 +6,7 @@ CONSTANTS
   MaxDir = 1000
   Sizes = {11, 30, 99}
   Dev = {}
+  EnvOn = {"disc"}
   MaxHist = 100000
 POSTCONDITION Done
 CHECK_DEADLOCK FALSE
